@@ -1,6 +1,6 @@
 """C15 Requests with a timeout always finish in bounded time (W-FULL, finite plans)."""
 from dsim import seams
-from props.common import gen_strategy, quiet_logging, Violations
+from props.common import gen_stalls, gen_strategy, quiet_logging, Violations
 from worlds.reqpath import ReqPathRun, base_plan, RETRY, RETHROW, IGNORE, RETRY_NEXT_HOST
 
 ID = 'C15'
@@ -80,11 +80,17 @@ def gen_plan(rng, tier):
         p['faults'].append({'at': rng.choice([0.01, 0.1, 0.4]), 'kind': 'crash', 'node': rng.randrange(n),
                             'how': rng.choice(['rst', 'blackhole'])})
     p.update(strategy=gen_strategy(rng), line_p=0, points=0, time_jump_p=0)
+    p.update(gen_stalls(rng, ['_set_result', '_on_timeout', '_retry_task', '_query', 'start_fetching_next_page'], 0.3))
     return p
 
 
+def line_funcs(w):
+    RF = w.ccl.ResponseFuture
+    return [RF._set_result, RF._on_timeout, RF._retry_task, RF._query, RF.start_fetching_next_page, RF._start_timer]
+
+
 def run_plan(plan, seed, choices=None):
-    run = ReqPathRun(plan, seed, choices, horizon=60.0)
+    run = ReqPathRun(plan, seed, choices, horizon=60.0, line_funcs=line_funcs)
     w, sim = run.w, run.w.sim
     fetches = []     # (rid, page index, t0, t1, outcome type)
 
@@ -123,6 +129,11 @@ def run_plan(plan, seed, choices=None):
     V = Violations()
     timed_out = 0
     default_t = plan['exec'].get('default_timeout', 10.0)
+    def stalled(a, b):
+        # a driver thread that the simulator stalled (thread-stall fault) cannot act meanwhile: the timer that reports the timeout
+        # runs on the event-loop thread, its completion on whichever thread; the bound is on top of the stall time injected in [a, b]
+        return sum(d for (ts, d, name) in sim.stall_log if ts < b and ts + d > a)
+
     for i, o in sorted(run.obs.items()):
         r = plan['requests'][i]
         T = r.get('timeout', default_t)
@@ -134,7 +145,7 @@ def run_plan(plan, seed, choices=None):
             V.add('C15/bounded', 'first-page-never-finished',
                   'request %d (timeout %.2f) started at %.3f had no outcome by %.3f (status %s)' % (i, T, o.t_start, sim.vnow(), status))
             continue
-        if t_done - o.t_start > T + EPS:
+        if t_done - o.t_start > T + EPS + stalled(o.t_start, t_done):
             V.add('C15/bounded', 'first-page-late', 'request %d (timeout %.2f) finished after %.3f s' % (i, T, t_done - o.t_start))
         kind = o.calls[0][3][0] if o.calls[0][2] == 'eb' else 'ok'
         replies = [x for n in w.fc.nodes for x in n.replies if x['rid'] == i and x['seq'] < o.calls[0][0]]
@@ -156,7 +167,7 @@ def run_plan(plan, seed, choices=None):
         r = plan['requests'][i]
         T = r.get('timeout', default_t)
         V.check('C15/bounded')
-        if t1 - t0 > T + EPS:
+        if t1 - t0 > T + EPS + stalled(t0, t1):
             V.add('C15/bounded', 'later-page-late', 'fetch of page %d of request %d (timeout %.2f) took %.3f s (%s)' % (k, i, T, t1 - t0, out))
         if out == 'OperationTimedOut':
             timed_out += 1
